@@ -1265,7 +1265,7 @@ def check(run: lib.Run, audit: dict) -> int:
             elif status == "fixed":
                 if v["bad"]:
                     print(f"[C10] fixed finding {fid} reproduces on the real code: clause(s) {','.join(v['bad'])} fail on its witness")
-                    violations.append((os.path.join(lib.VERIF, rel), True))
+                    violations.append((rel, True))
                 elif v["disagree"]:
                     run.disagreements.append(v)
             elif v["bad"]:
@@ -1309,11 +1309,13 @@ def check(run: lib.Run, audit: dict) -> int:
         if (findings.get("F9") or {}).get("status") == "known":
             run.known.append(F9_LINE)
         else:
-            violations.append((os.path.join(lib.VERIF, "corpus", "C10_F9_http_etag.json"), True))
+            violations.append((os.path.join("corpus", "C10_F9_http_etag.json"), True))
     return run.finish(audit, violations)
 
 
 def replay(run: lib.Run, audit: dict, path: str) -> int:
+    if not os.path.exists(path) and os.path.exists(os.path.join(lib.VERIF, path)):
+        path = os.path.join(lib.VERIF, path)
     rp = json.load(open(path))
     case = rp.get("case") or rp
     with tempfile.TemporaryDirectory(prefix="c10_") as tmpdir, _Patched():
